@@ -249,6 +249,7 @@ def rule_geometry(ctx, F):
                                 ("…and does not start in the padding", "edit.start.bytes < padding.bytes", False)], accept_desc="resizing the node")
     # a node is left unmarked only if the edit lies strictly beyond everything the lexer looked at for it
     conts = sorted((b.id for b in fn.blocks.values() if b.term.get("cls") == "ContinueStmt"), key=lambda i: (fn.blocks[i].term.get("loc") or {}).get("l", 0))
+    bind(fn, "end_byte", "_.bytes + _")          # whatever the local is called today (rule_subtree_edit binds it too; this rule also runs alone under C02)
     d = [x for i in fn.ids_named("end_byte") for x in fn.defs(i) if x is not None and x.get("k") != "uninit"]
     if conts and d and M(fn).match("total_size.bytes + lookahead_bytes", d[0]):
         skip_blk = conts[0]
